@@ -10,96 +10,94 @@ def integrate : List (String × String) := [
 
 ]
 def fits : List (String × String) := [
-  ("Angulo.cutmask", "self.m < 1e+16"),
-  ("Angulo.cutmask", "self.m > 100000000.0"),
-  ("Courtin.cutmask", "self.lnsigma < 0.7"),
-  ("Courtin.cutmask", "self.lnsigma > -0.8"),
-  ("Crocce.cutmask", "self.m < 3162277660168379.5"),
-  ("Crocce.cutmask", "self.m > 31622776601.683792"),
-  ("Ishiyama.cutmask", "self.m < 1e+16"),
-  ("Ishiyama.cutmask", "self.m > 100000000.0"),
-  ("Jenkins.cutmask", "self.lnsigma < 1.05"),
-  ("Jenkins.cutmask", "self.lnsigma > -1.2"),
-  ("Peacock.cutmask", "self.m < 10000000000.0"),
-  ("Peacock.cutmask", "self.m > 1000000000000000.0"),
-  ("Reed03.cutmask", "self.lnsigma < 0.9"),
-  ("Reed03.cutmask", "self.lnsigma > -1.7"),
-  ("Reed07.cutmask", "self.lnsigma < 1.2"),
-  ("Reed07.cutmask", "self.lnsigma > -0.5"),
-  ("Tinker08.cutmask", "self.lnsigma / np.log(10) < 0.4"),
-  ("Tinker08.cutmask", "self.lnsigma / np.log(10) > -0.2"),
-  ("Tinker08.cutmask", "self.lnsigma / np.log(10) > -0.6"),
-  ("Tinker08.cutmask", "self.z == 0.0"),
-  ("Tinker10.__init__", "self.beta <= 0.0"),
-  ("Tinker10.__init__", "self.eta - self.phi <= -0.5"),
-  ("Tinker10.__init__", "self.eta <= -0.5"),
-  ("Tinker10.__init__", "self.gamma <= 0.0"),
-  ("Tinker10.cutmask", "self.lnsigma / np.log(10) < 0.4"),
-  ("Tinker10.cutmask", "self.lnsigma / np.log(10) > -0.2"),
-  ("Tinker10.cutmask", "self.lnsigma / np.log(10) > -0.6"),
-  ("Tinker10.cutmask", "self.z == 0.0"),
-  ("Tinker10.normalise", "self.z == 0.0"),
-  ("Warren.cutmask", "self.m < 1000000000000000.0"),
-  ("Warren.cutmask", "self.m > 10000000000.0"),
-  ("Watson.cutmask", "self.lnsigma < 1.05"),
-  ("Watson.cutmask", "self.lnsigma > -0.55"),
-  ("Watson.fsigma", "self.z == 0.0"),
-  ("Watson_FoF.cutmask", "self.lnsigma < 1.31"),
-  ("Watson_FoF.cutmask", "self.lnsigma > -0.55")
+  ("Angulo", "self.m < 1e+16"),
+  ("Angulo", "self.m > 100000000.0"),
+  ("Courtin", "self.lnsigma < 0.7"),
+  ("Courtin", "self.lnsigma > -0.8"),
+  ("Crocce", "self.m < 3162277660168379.5"),
+  ("Crocce", "self.m > 31622776601.683792"),
+  ("Ishiyama", "self.m < 1e+16"),
+  ("Ishiyama", "self.m > 100000000.0"),
+  ("Jenkins", "self.lnsigma < 1.05"),
+  ("Jenkins", "self.lnsigma > -1.2"),
+  ("Peacock", "self.m < 10000000000.0"),
+  ("Peacock", "self.m > 1000000000000000.0"),
+  ("Reed03", "self.lnsigma < 0.9"),
+  ("Reed03", "self.lnsigma > -1.7"),
+  ("Reed07", "self.lnsigma < 1.2"),
+  ("Reed07", "self.lnsigma > -0.5"),
+  ("Tinker08", "self.lnsigma / np.log(10) < 0.4"),
+  ("Tinker08", "self.lnsigma / np.log(10) > -0.2"),
+  ("Tinker08", "self.lnsigma / np.log(10) > -0.6"),
+  ("Tinker08", "self.z == 0.0"),
+  ("Tinker10", "self.beta <= 0.0"),
+  ("Tinker10", "self.eta - self.phi <= -0.5"),
+  ("Tinker10", "self.eta <= -0.5"),
+  ("Tinker10", "self.gamma <= 0.0"),
+  ("Tinker10", "self.lnsigma / np.log(10) < 0.4"),
+  ("Tinker10", "self.lnsigma / np.log(10) > -0.2"),
+  ("Tinker10", "self.lnsigma / np.log(10) > -0.6"),
+  ("Tinker10", "self.z == 0.0"),
+  ("Warren", "self.m < 1000000000000000.0"),
+  ("Warren", "self.m > 10000000000.0"),
+  ("Watson", "self.lnsigma < 1.05"),
+  ("Watson", "self.lnsigma > -0.55"),
+  ("Watson", "self.z == 0.0"),
+  ("Watson_FoF", "self.lnsigma < 1.31"),
+  ("Watson_FoF", "self.lnsigma > -0.55")
 ]
 def massFunction : List (String × String) := [
-  ("MassFunction._gtm", "dndm > 0.0"),
-  ("MassFunction._gtm", "dndm[-1] != 0.0"),
-  ("MassFunction._gtm", "m[-1] < 3.162277660168379e+16"),
-  ("MassFunction.delta_c", "val <= 0.0"),
-  ("MassFunction.delta_c", "val > 10.0"),
-  ("MassFunction.mass_nonlinear", "self.nu.max() < 1.0"),
-  ("MassFunction.mass_nonlinear", "self.nu.min() > 1.0")
+  ("MassFunction", "dndm > 0.0"),
+  ("MassFunction", "dndm[-1] != 0.0"),
+  ("MassFunction", "m[-1] < 3.162277660168379e+16"),
+  ("MassFunction", "self.nu.max() < 1.0"),
+  ("MassFunction", "self.nu.min() > 1.0"),
+  ("MassFunction", "val <= 0.0"),
+  ("MassFunction", "val > 10.0")
 ]
 def sample : List (String × String) := [
-  ("_prepare_mf", "h.ngtm > 0.0"),
-  ("dndm_from_sample", "hist != 0.0"),
-  ("dndm_from_sample", "hist[-1] == 0.0"),
-  ("dndm_from_sample", "hist[0] == 0.0")
+  ("", "h.ngtm > 0.0"),
+  ("", "hist != 0.0"),
+  ("", "hist[-1] == 0.0"),
+  ("", "hist[0] == 0.0")
 ]
 def transferModels : List (String × String) := [
-  ("CAMB.__init__", "self.cosmo.Tcmb0.value == 0.0"),
-  ("FromFile._check_low_k", "abs((lnT[i + 1] - lnT[i]) / (lnk[i + 1] - lnk[i])) < 0.0001")
+  ("CAMB", "self.cosmo.Tcmb0.value == 0.0"),
+  ("FromFile", "abs((lnT[i + 1] - lnT[i]) / (lnk[i + 1] - lnk[i])) < 0.0001")
 ]
 def filters : List (String × String) := [
-  ("SharpK.dw_dlnkr", "kr == 1.0"),
-  ("SharpK.k_space", "kr == 1.0"),
-  ("SharpK.k_space", "kr > 1.0"),
-  ("TopHat.dw_dlnkr", "kr > 0.001"),
-  ("TopHat.k_space", "kr > 1.4e-06")
+  ("SharpK", "kr == 1.0"),
+  ("SharpK", "kr > 1.0"),
+  ("TopHat", "kr > 0.001"),
+  ("TopHat", "kr > 1.4e-06")
 ]
 def halofit : List (String × String) := [
-  ("halofit", "k > 0.005"),
-  ("halofit", "np.abs(1 - omegamz) > 0.01")
+  ("", "k > 0.005"),
+  ("", "np.abs(1 - omegamz) > 0.01")
 ]
 def transfer : List (String × String) := [
-  ("Transfer._unn_sig8", "self.lnk_max < 9.0"),
-  ("Transfer._unn_sig8", "self.lnk_min > -15.0"),
-  ("Transfer.n", "val < -3.0"),
-  ("Transfer.n", "val > 4.0"),
-  ("Transfer.sigma_8", "val < 0.1"),
-  ("Transfer.sigma_8", "val > 10.0"),
-  ("Transfer.z", "val < 0.0")
+  ("Transfer", "self.lnk_max < 9.0"),
+  ("Transfer", "self.lnk_min > -15.0"),
+  ("Transfer", "val < -3.0"),
+  ("Transfer", "val < 0.0"),
+  ("Transfer", "val < 0.1"),
+  ("Transfer", "val > 10.0"),
+  ("Transfer", "val > 4.0")
 ]
 def wdm : List (String × String) := [
-  ("TransferWDM.wdm_mass", "val <= 0.0")
+  ("TransferWDM", "val <= 0.0")
 ]
 def mdef : List (String × String) := [
 
 ]
 def growth : List (String × String) := [
-  ("CambGrowth.__init__", "self.cosmo.Tcmb0.value == 0.0"),
-  ("GenMFGrowth.growth_factor", "np.abs(s - 1.0) > 1e-10"),
-  ("GenMFGrowth.growth_factor", "s != 1.0"),
-  ("GenMFGrowth.growth_factor", "s > 1.0"),
-  ("GenMFGrowth.growth_factor", "self.cosmo.Ode0 > 0.0"),
-  ("GenMFGrowth.growth_factor", "self.cosmo.Om0 < 0.0"),
-  ("GenMFGrowth.growth_factor", "self.cosmo.Om0 == 1.0")
+  ("CambGrowth", "self.cosmo.Tcmb0.value == 0.0"),
+  ("GenMFGrowth", "1 - self.cosmo.Ok0 != 1.0"),
+  ("GenMFGrowth", "1 - self.cosmo.Ok0 > 1.0"),
+  ("GenMFGrowth", "np.abs(1 - self.cosmo.Ok0 - 1.0) > 1e-10"),
+  ("GenMFGrowth", "self.cosmo.Ode0 > 0.0"),
+  ("GenMFGrowth", "self.cosmo.Om0 < 0.0"),
+  ("GenMFGrowth", "self.cosmo.Om0 == 1.0")
 ]
 def cosmo : List (String × String) := [
 
